@@ -21,10 +21,10 @@ const (
 )
 
 type Method struct {
-	Service  string
-	Name     string
-	FullName string // /pkg.Service/Method
-	In, Out  protoreflect.MessageDescriptor
+	Service                          string
+	Name                             string
+	FullName                         string // /pkg.Service/Method
+	In, Out                          protoreflect.MessageDescriptor
 	ClientStreaming, ServerStreaming bool
 }
 
